@@ -222,7 +222,7 @@ func Accessor(v ssa.Value) string {
 		if !ok {
 			return ""
 		}
-		return st.Field(x.Field).Name()
+		return CanonField(st.Field(x.Field))
 	}
 	return ""
 }
